@@ -33,8 +33,8 @@ Init == \E i \in 1..Len(Traces) :
 \* two non-verbose messages always
 \* (with the no-stream overloads or a std::ostream the harness sees only the functor observers: sk # 0)
 Visible(e) == /\ e[1] # "tau"
-              /\ IF Traces[tix].sk = 0 THEN (opt.v \/ e[1] \in {"tval", "call", "synerr", "unexp"})
-                 ELSE e[1] \in {"tval", "call"}
+              /\ IF Traces[tix].sk = 0 THEN (opt.v \/ e[1] \in {"tval", "call", "dcall", "synerr", "unexp"})
+                 ELSE e[1] \in {"tval", "call", "dcall"}
 Match(e, x) == e[1] = x[1] /\ Len(e) = Len(x) /\ e = x
 
 Step ==
@@ -50,10 +50,11 @@ Step ==
           /\ UNCHANGED <<tix, fin>>
 
 \* the flattened real result tree must be the tree the specification built
-TreeOK == /\ Traces[tix].root = vals[1]
+TreeOK == /\ Traces[tix].root = vals[1]     \* (-1: the root value is a default-constructed, empty value)
           /\ \A i \in 1..Len(Traces[tix].tree) :
                LET x == Traces[tix].tree[i] n == nodes[x[1] + 1] IN
-               /\ x[2] = n.k /\ x[3] = n.sym /\ x[8] = n.ch
+               /\ x[2] = n.k /\ x[3] = n.sym
+               /\ x[8] = [k \in DOMAIN n.ch |-> IF n.ch[k] = -1 THEN -2 ELSE n.ch[k]]      \* valueless children print alike
                /\ (n.k = 0 => x[4] = n.off /\ x[5] = n.len /\ x[6] = n.line /\ x[7] = n.col)
 
 FinalProblems ==
